@@ -131,6 +131,7 @@ class Gen:
         self.rational = rational
         self.facts, self.traced_pow = facts, traced_pow
         self.buf_filled = {}
+        self.tags = set()       # properties of the generated program that the instruction list does not show (e.g. a base matrix that needs pivoting)
 
     def emit(self, ins, kind=None):
         self.instrs.append(ins)
@@ -290,10 +291,13 @@ class Gen:
                     self.emit(['set2', M, i, j, ['r', e]])
             r = self.rng.random()
             if r < 0.4:
+                self.tags.add('pivoting:det')
                 return self.emit(['det', M], 's')
             if r < 0.7:
+                self.tags.add('pivoting:logdet')
                 return self.emit(['logdet', M], 's')
             if r < 0.85:
+                self.tags.add('pivoting:inv')
                 Y = self.emit(['inv', M], ('m', n, n)); return self.emit(['trace', Y], 's')
             # distinct entries of a NON-symmetric matrix under every storage convention
             v = self.emit(['symvec', M, self.rng.choice(['F', 'L', 'U'])], ('v', n * (n + 1) // 2))
@@ -650,9 +654,9 @@ def kernel_programs(rng, ap, reps=2):
         while dry < 200 and kept < 8 * k:
             g, a = start(N=rng.randint(2, 4))
             prog = finish(g, getattr(g, name)())
-            fs = features(prog['instrs'])
+            fs = features(prog['instrs']) | g.tags
             if kept < want or not fs <= seen:
-                out.append((name, prog)); kept += 1
+                out.append((name + (':pivoting' if any(t.startswith('pivoting') for t in g.tags) else ''), prog)); kept += 1
                 dry = 0 if not fs <= seen else dry + 1
                 seen |= fs
             else:
